@@ -1,6 +1,7 @@
 package main
 
 import (
+	"free5gclib/nas/nasTestpacket"
 	"fmt"
 	"strings"
 	"stgutg"
@@ -246,6 +247,16 @@ func derive(in map[string]interface{}) map[string]interface{} {
 	// further challenges on the SAME context (re-authentication): what the UE answers and installs must be what a fresh
 	// context with the same subscription gives for those inputs. (a) a new RAND delivered in the same receive buffer,
 	// (b) the same RAND with another AUTN, (c) the same RAND and AUTN under another serving network name
+	// the context protects a message before it is challenged again (as RegisterUE does after every authentication): a
+	// re-authentication after traffic installs the keys of the NEW vector all the same
+	func() {
+		defer func() { recover() }()
+		if ue.IntegrityAlg == 1 || ue.IntegrityAlg == 2 {
+			tglib.EncodeNasPduWithSecurity(ue, nasTestpacket.GetRegistrationComplete(nil), 2, true, true)
+		} else {
+			ue.ULCount.AddOne()
+		}
+	}()
 	rand0 := append([]byte{}, rand...)
 	if len(mnc) < 2 || mnc[len(mnc)-1] < '0' || mnc[len(mnc)-1] > '9' || len(rand) == 0 {
 		prevDerived = &derived{ue: ue, autn: autn, rand: rand0, sn: snName, mnc: mnc, mcc: mcc}
